@@ -8,6 +8,7 @@ import (
 	"os"
 	"os/exec"
 	"path/filepath"
+	"regexp"
 	"sort"
 	"strings"
 	"syscall"
@@ -442,6 +443,47 @@ func c07History(c *vc.Ctx, idx int) {
 			return c07Replica(recFile, raceBin, "fresh", []string{"GOMAXPROCS=16", "GORACE=halt_on_error=0"}, recFile+".r3")
 		}})
 	}
+	if raceBin != "" && (idx%3 == 1 || c.Thorough()) {
+		name := "R7 other process, race-detector build, busy with concurrent CheckTx, simulations and queries"
+		reps = append(reps, rep{name, func() ([]world.Outcome, error) {
+			logBase := recFile + ".race"
+			outs, err := c07Replica(recFile, raceBin, "busy", []string{"GOMAXPROCS=16", "GORACE=halt_on_error=0 exitcode=0 log_path=" + logBase}, recFile+".r7")
+			if bz, e := os.ReadFile(recFile + ".r7.busy"); e == nil {
+				var st map[string]int64
+				if json.Unmarshal(bz, &st) == nil {
+					c.Count("concurrent_check_tx_next_to_block_execution", int(st["check_tx"]))
+					c.Count("concurrent_simulations_next_to_block_execution", int(st["simulations"]))
+					c.Count("concurrent_simulations_that_ran_their_handlers", int(st["simulations_ok"]))
+					c.Count("concurrent_queries_next_to_block_execution", int(st["queries"]))
+				}
+			}
+			os.Remove(recFile + ".r7")
+			os.Remove(recFile + ".r7.busy")
+			logs, _ := filepath.Glob(logBase + ".*")
+			seen := map[string]bool{}
+			for _, lf := range logs {
+				bz, _ := os.ReadFile(lf)
+				os.Remove(lf)
+				for _, blk := range strings.Split(string(bz), "==================") {
+					if !strings.Contains(blk, "WARNING: DATA RACE") {
+						continue
+					}
+					key, inGoat, inBlockExec := c07RaceKey(blk)
+					if seen[key] {
+						continue
+					}
+					seen[key] = true
+					if inGoat && inBlockExec {
+						c.Violation("data race between block execution and concurrent CheckTx/simulation/query: "+key,
+							"the outcome of block execution depends on how the goroutines are scheduled; race detector report:\n"+head(blk, 6000), map[string]any{"history": h.replay(), "replica": name})
+					} else {
+						c.Count("race_reports_outside_goat_block_execution", 1)
+					}
+				}
+			}
+			return outs, err
+		}})
+	}
 	for _, rp := range reps {
 		outs, err := rp.run()
 		os.Remove(recFile + ".r2")
@@ -499,6 +541,58 @@ func c07History(c *vc.Ctx, idx int) {
 	c.Sample(map[string]any{"blocks": len(rec.Blocks), "hot_heights": hot, "replicas": len(reps), "validators": len(h.vals), "last_ops": lastN(h.opsLog, 3)})
 }
 
+// c07RaceKey summarises one race-detector report. An access is goat's own when the code that touches the memory is goat
+// code: walking down the access stack from the top, frames of the standard library and of generic helper libraries are
+// skipped, and the first other frame must lie in github.com/goatnetwork/goat. Accesses made inside the SDK's stores, IAVL
+// or the signing context on behalf of a goat handler are not goat's own (checkState reads next to FinalizeBlock's
+// working-hash writes are the SDK's business and cannot change a block's outcome). inBlockExec: one of the two
+// accesses happens under FinalizeBlock or Commit.
+func c07RaceKey(blk string) (key string, inGoat, inBlockExec bool) {
+	var tops []string
+	frameRe := regexp.MustCompile(`(?m)^\s+([A-Za-z0-9_./~-]+(?:\.\([^)]*\))?[A-Za-z0-9_.]*(?:\[[^\]]*\])?(?:\.func[0-9.]+)?)\(`)
+	generic := func(fn string) bool {
+		first := fn
+		if i := strings.Index(fn, "/"); i >= 0 {
+			first = fn[:i]
+		} else if j := strings.Index(fn, "."); j >= 0 {
+			first = fn[:j] // "runtime.slicecopy": a package without a path
+		}
+		if !strings.Contains(first, ".") {
+			return true // standard library, runtime
+		}
+		for _, p := range []string{"github.com/hashicorp/golang-lru", "golang.org/x/", "github.com/btcsuite/", "github.com/ethereum/go-ethereum/common", "github.com/supranational/blst", "github.com/holiman/uint256", "github.com/decred/"} {
+			if strings.HasPrefix(fn, p) {
+				return true
+			}
+		}
+		return false
+	}
+	for _, sec := range regexp.MustCompile(`\n(?:Previous )?(?:[Rr]ead|[Ww]rite|atomic [a-z]+) at [^\n]*\n`).Split(blk, -1)[1:] {
+		if i := strings.Index(sec, "\n\n"); i >= 0 {
+			sec = sec[:i] // an access stack ends at the first blank line
+		}
+		if strings.Contains(sec, "baseapp.(*BaseApp).FinalizeBlock") || strings.Contains(sec, "baseapp.(*BaseApp).internalFinalizeBlock") || strings.Contains(sec, "baseapp.(*BaseApp).Commit") {
+			inBlockExec = true
+		}
+		for _, m := range frameRe.FindAllStringSubmatch(sec, -1) {
+			if generic(m[1]) {
+				continue
+			}
+			if strings.HasPrefix(m[1], "github.com/goatnetwork/goat/") {
+				inGoat = true
+				tops = append(tops, m[1])
+			}
+			break
+		}
+	}
+	sort.Strings(tops)
+	key = strings.Join(tops, " <-> ")
+	if key == "" {
+		key = "no access in goat code"
+	}
+	return
+}
+
 type c07d struct{ field, a, b string }
 
 func c07Diff(p, o world.Outcome) c07d {
@@ -542,4 +636,11 @@ func init() {
 		Cases:  func(tier string) int { return map[string]int{"quick": 12, "thorough": 80}[tier] },
 		Run:    func(c *vc.Ctx, i int) { c07History(c, i) },
 	})
+}
+
+func head(s string, n int) string {
+	if len(s) > n {
+		return s[:n]
+	}
+	return s
 }
